@@ -20,6 +20,7 @@ package dkgprops
 import (
 	"bytes"
 	"context"
+	"encoding/json"
 	"fmt"
 	"os"
 	"sort"
@@ -688,6 +689,10 @@ func TestC08_CrashRecovery(t *testing.T) {
 	caseNo := 0
 	inconclusive := 0
 	total := 0
+	replay := c08Replay()
+	if replay != nil {
+		variants, victims = []int{replay.Variant}, []int{replay.Victim}
+	}
 	for _, variant := range variants {
 		for _, victim := range victims {
 			sc := c08Scenario(variant, victim)
@@ -724,7 +729,9 @@ func TestC08_CrashRecovery(t *testing.T) {
 				points = append(points, crashPoint{Kind: "rpc", K: j})
 			}
 			var plans [][]crashPoint
-			if thorough() {
+			if replay != nil {
+				plans = [][]crashPoint{replay.Plan}
+			} else if thorough() {
 				for _, p := range points {
 					plans = append(plans, []crashPoint{p})
 				}
@@ -747,7 +754,7 @@ func TestC08_CrashRecovery(t *testing.T) {
 					}
 				}
 			}
-			known := isKnown("C08", sigReloadPending)
+			known := isKnown("C08", sigReloadPending) && replay == nil
 			if known && variant == variants[0] && victim == victims[0] {
 				// (a) replay the class: first commit of a block transaction inside the pending window
 				for k, u := range ref.units {
@@ -787,7 +794,7 @@ func TestC08_CrashRecovery(t *testing.T) {
 					}
 				}
 				caseNo++
-				if thorough() && !mySlice(caseNo) {
+				if replay == nil && thorough() && !mySlice(caseNo) {
 					continue
 				}
 				total++
@@ -799,7 +806,7 @@ func TestC08_CrashRecovery(t *testing.T) {
 					}
 					failed = true
 					detail := desc + " :: " + fmt.Sprintf(format, args...)
-					path := rec.SaveReplay(t.Name(), fmt.Sprintf("crash-v%d-k%d-%s", variant, victim, strings.NewReplacer(":", "_", " ", "", "[", "", "]", "").Replace(fmt.Sprint(plan))), map[string]any{"variant": variant, "victim": victim, "plan": fmt.Sprint(plan), "seed": seed})
+					path := rec.SaveReplay(t.Name(), fmt.Sprintf("crash-v%d-k%d-%s", variant, victim, strings.NewReplacer(":", "_", " ", "", "[", "", "]", "").Replace(fmt.Sprint(plan))), map[string]any{"variant": variant, "victim": victim, "plan": plan, "plan_text": fmt.Sprint(plan), "seed": seed})
 					rec.Violation(sig, detail, path)
 					t.Errorf("VERIF-FAIL signature=%s :: %s", sig, detail)
 				})
@@ -876,4 +883,31 @@ func phaseLabelFromRef(ref *c08Result, open int64) string {
 
 func runC08Plan(sc Scenario, victim int, plan []crashPoint, ref *c08Result, fail failFn) *c08Result {
 	return runC08(sc, victim, plan, ref, fail)
+}
+
+type c08ReplayCase struct {
+	Variant int          `json:"variant"`
+	Victim  int          `json:"victim"`
+	Plan    []crashPoint `json:"plan"`
+	Seed    int          `json:"seed"`
+}
+
+// c08Replay reads a JSON replay descriptor written by SaveReplay (nil if this
+// run is not a replay).
+func c08Replay() *c08ReplayCase {
+	p := os.Getenv("VERIF_REPLAY_JSON")
+	if p == "" {
+		return nil
+	}
+	b, err := os.ReadFile(p)
+	if err != nil {
+		return nil
+	}
+	var d struct {
+		Case c08ReplayCase `json:"case"`
+	}
+	if json.Unmarshal(b, &d) != nil || len(d.Case.Plan) == 0 {
+		return nil
+	}
+	return &d.Case
 }
